@@ -1,5 +1,125 @@
-(* placeholder while the development is being built *)
-From Verif Require Import Prelude AztecM AztecSpec.
-Example C03_placeholder : aztec_decode_hl [] = Some [].
-Proof. reflexivity. Qed.
-Print Assumptions C03_placeholder.
+(* C03 -- Aztec: every accepted payload decodes back to exactly that payload.
+   Property theorems only; the proofs live in proofs/AztecP*.v and
+   proofs/AztecProps.v.
+
+   Model: model/AztecM.v (az_encode = aztec.EncodeWithColor, line by line; tables
+   from gen/TabAztec.v).  Specification: spec/AztecSpec.v (ISO/IEC 24778 from the
+   reader's side: aztec_read / aztec_valid / aztec_decode work from the module
+   matrix).  Domain az_in_domain: payload bytes in 0..255, length < 2^57, ecc
+   percentage >= 0, and bits.Len()*pct < 2^63 (no wrap of the Go int product). *)
+From Verif Require Import Prelude Barcode BitListM GFM TabAztec AztecM AztecSpec
+     AztecPBase AztecPTab AztecPStuff AztecPLayout AztecPHL AztecPConfig AztecPCompose AztecProps.
+
+(* The composed statement: for every byte string, every percentage >= 0 and
+   every layer request (any integer; 0 = automatic) for which the encoder model
+   returns a barcode, the image is a valid ISO/IEC 24778 symbol -- finder
+   pattern and orientation marks, a mode message that passes its GF(16)
+   Reed-Solomon check and agrees with the symbol size, a complete reference
+   grid in full-range symbols, data codewords that pass the Reed-Solomon check
+   of the symbol's field and contain no all-zero / all-one word -- which the
+   reader decodes to exactly the payload; an explicit layer request is
+   honoured exactly. *)
+Theorem C03_roundtrip : forall data pct req bc,
+  az_in_domain data pct -> az_encode data pct req = Ok bc ->
+  aztec_valid (bc_rows bc) = true
+  /\ aztec_decode (bc_rows bc) = Some data
+  /\ (req <> 0 -> exists r, aztec_read (bc_rows bc) = ROk r
+                   /\ ar_compact r = (req <? 0) /\ ar_layers r = Z.abs req).
+Proof. exact az_c03_roundtrip. Qed.
+Print Assumptions C03_roundtrip.
+
+(* Layer 1 (tables, finite): charMap / latchTable / shiftTable / word_size as
+   built by the Go source agree with the ISO tables of the specification. *)
+Theorem C03_tables :
+  (forall m ch, 0 <= m <= 4 -> 0 <= ch < 256 -> cm_entry_ok m ch = true)
+  /\ (forall a b, 0 <= a <= 4 -> 0 <= b <= 4 -> latch_entry_ok a b = true)
+  /\ (forall a b, 0 <= a <= 4 -> 0 <= b <= 4 -> shift_entry_ok a b = true)
+  /\ (forall l, 1 <= l <= 32 -> zget az_word_size l = Some (sp_word_size l))
+  /\ (forall compact l, az_total_bits l compact = sp_capacity compact l)
+  /\ (az_gf4 = sp_gf4 /\ az_gf6 = sp_gf6 /\ az_gf8 = sp_gf8 /\ az_gf10 = sp_gf10 /\ az_gf12 = sp_gf12).
+Proof. exact az_c03_tables. Qed.
+Print Assumptions C03_tables.
+
+(* Layer 2 (high level, unbounded): the bit stream chosen by the state-list
+   search decodes to the payload, also when followed by up to 11 padding ones. *)
+Theorem C03_highlevel : forall data, Forall is_byte data -> zlength data < 2 ^ 57 ->
+  exists bits, az_highlevel data = Ok bits
+    /\ forall k, (k <= 11)%nat -> aztec_decode_hl (bits ++ repeat true k) = Some data.
+Proof. exact az_c03_highlevel. Qed.
+Print Assumptions C03_highlevel.
+
+(* Layer 3 (stuffing, unbounded): un-stuffing gives the bits back plus fewer
+   than wordSize padding ones (un-stuffing succeeds only if no codeword is
+   all-zero or all-one and the length is a multiple of the word size); an empty
+   payload yields exactly one padding word. *)
+Theorem C03_stuffing : forall (wordSize : Z) (bits : list bool), 2 <= wordSize ->
+  exists out k,
+    az_stuff_bits bits wordSize = Ok out
+    /\ sp_unstuff (Z.to_nat wordSize) out = Some (bits ++ repeat true k)
+    /\ (k < Z.to_nat wordSize)%nat
+    /\ out <> []
+    /\ zlength out mod wordSize = 0
+    /\ zlength bits <= zlength out
+    /\ (zlength out / wordSize - 1) * (wordSize - 1) <= zlength bits.
+Proof. exact az_c03_stuffing. Qed.
+Print Assumptions C03_stuffing.
+
+Theorem C03_stuffing_empty : forall wordSize, 2 <= wordSize ->
+  az_stuff_bits [] wordSize = Ok (repeat true (Z.to_nat wordSize - 1) ++ [false]).
+Proof. exact az_c03_stuffing_empty. Qed.
+Print Assumptions C03_stuffing_empty.
+
+(* Layer 4 (layout, 36 configurations): for arbitrary message and mode-message
+   bits the drawn matrix has the ISO size, nothing is set outside it, the finder
+   pattern / orientation marks / reference grid are as prescribed, and reading
+   the mode-message ring and the data spiral gives the bits back. *)
+Theorem C03_layout : forall (compact : bool) (L : Z) (msg mm : list bool),
+  (if compact then 1 <= L <= 4 else 1 <= L <= 32) ->
+  zlength msg = az_total_bits L compact ->
+  zlength mm = az_mode_len compact ->
+  let n := az_matrix_size compact L in
+  let c := n / 2 in
+  let M := az_draw compact L msg mm in
+  let rows := az_rows (Z.to_nat (am_size M)) 0 M in
+  am_size M = n /\ am_bad M = false
+  /\ n = sp_size compact L /\ Z.odd n = true /\ 15 <= n
+  /\ zlength rows = n /\ Forall (fun r => zlength r = n) rows
+  /\ sp_cells_ok rows (sp_finder compact c) = true
+  /\ (compact = false ->
+      sp_cells_ok rows (sp_finder true c) = false /\ sp_cells_ok rows (sp_grid n c) = true)
+  /\ map (fun p => sp_pix rows (fst p) (snd p)) (sp_mode_positions compact c) = mm
+  /\ map (fun p => sp_pix rows (fst p) (snd p)) (sp_data_positions compact L c) = msg
+  /\ zlength (sp_data_positions compact L c) = sp_capacity compact L.
+Proof. exact az_c03_layout. Qed.
+Print Assumptions C03_layout.
+
+(* ---- the hypotheses are satisfiable; the statements are not vacuous ---- *)
+Example C03_nonvacuous_auto :
+  match az_encode c03_hello 33 0 with
+  | Ok bc => aztec_decode (bc_rows bc) = Some c03_hello /\ bc_width bc = 19
+  | _ => False
+  end.
+Proof. exact az_c03_example_auto. Qed.
+
+Example C03_nonvacuous_layers :
+  exists bc r, az_encode c03_hello 23 5 = Ok bc /\ aztec_read (bc_rows bc) = ROk r
+    /\ ar_layers r = 5 /\ ar_compact r = false /\ ar_payload r = c03_hello /\ bc_width bc = 37.
+Proof. exact az_c03_example_layers. Qed.
+
+Example C03_nonvacuous_empty :
+  match az_encode [] 33 0 with
+  | Ok bc => aztec_read (bc_rows bc)
+             = ROk {| ar_compact := true; ar_layers := 1; ar_datawords := 1;
+                      ar_checkwords := 16; ar_payload := [] |}
+  | _ => False
+  end.
+Proof. exact az_c03_example_empty. Qed.
+
+Example C03_domain_inhabited : az_in_domain c03_hello 33.
+Proof. exact az_c03_example_domain. Qed.
+
+(* Found while proving (fixed in /repo since, kept as witnesses in comments):
+   - full-range symbols with 12 or 27 layers lacked the outermost reference-grid
+     line (loop bound i < baseMatrixSize/2-1): aztec.Encode("HELLO",0,12) left
+     column 65 blank;
+   - aztec.Encode(data, pct, math.MinInt64) panicked (negation overflow). *)
